@@ -51,7 +51,7 @@ ASSUMPTIONS = [
     "virtual qubit 0 (the electron) is allocated for the whole subroutine (C09 records what happens otherwise)",
     "Q registers (scratch electron register) and C15 (end no-op) are excluded from the classical comparison",
 ]
-PROBES = ["branch-crosses-expansion", "carbon-carbon-gate", "end-label-target", "loop", "if", "measure-feeds-branch",
+PROBES = ["sdk-emitted", "sdk-nv-config", "branch-crosses-expansion", "carbon-carbon-gate", "end-label-target", "loop", "if", "measure-feeds-branch",
           "debug-on", "three-qubits", "s-or-t-gate", "q-register-by-load", "carbon-carbon-burst"]
 
 G1 = ["x", "y", "z", "h", "k", "s", "t"]
@@ -176,7 +176,7 @@ class StepCap(Exception):
 
 
 class Side:
-    def __init__(self, tag: str, flavour: str, us: List[float]):
+    def __init__(self, tag: str, flavour: str, us: List[float], init: bool = True):
         self.tag = tag
         i = {"n": 0}
 
@@ -188,7 +188,8 @@ class Side:
         self.uni = Universe(u)
         self.qm = SVQMem(self.uni, 0)
         self.node = ControllerNode("n" + tag, 0, self.qm, lambda: 0, flavour=flavour, with_stack=False)
-        self.node.init_app(0, 4)
+        if init:
+            self.node.init_app(0, 4)
         self.garbage: set = set()
 
     def run_bytes(self, raw: bytes, cap: int = 12000) -> None:
@@ -203,10 +204,145 @@ class Side:
             pass
 
 
+SDK_ALLOW = {"qblock", "qubit", "gate", "rot", "measure", "array", "loop", "if", "add", "flush", "empty-body"}
+
+
+def run_sdk(ch: Choices, opts: Dict[str, Any], calm: bool) -> Dict[str, Any]:
+    """Workload (a): the vanilla subroutines are the ones the real SDK emits for a generated host program; every
+    flushed subroutine runs as is on the vanilla side and transpiled on the NV side."""
+    from netqasm.backend.messages import MessageType
+    from netqasm.sdk.build_types import GenericHardwareConfig, NVHardwareConfig
+    from netqasm.sdk.qubit import Qubit
+
+    from sim.models.host_ref import HostGen
+    from sim.rigs.host import SdkDriver
+    from sim.stubs.connection import SimConnection, SimNetworkInfo
+
+    SimNetworkInfo.reset()
+    nvcfg = (not calm) and ch.flag(1, 2, "nvcfg")
+    budget = 3 + ch.draw(2, "budget")
+    us = [ch.u01("collapse") for _ in range(64)]
+    faults: Dict[str, int] = {}
+    probes: Dict[str, int] = {}
+
+    def bump(d, k, c=1):
+        d[k] = d.get(k, 0) + c
+
+    bump(probes, "sdk-emitted")
+    if nvcfg:
+        bump(probes, "sdk-nv-config")
+    V = Side("V", "vanilla", us, init=False)
+    N = Side("N", "nv", us, init=False)
+    vf = VanillaFlavour()
+
+    class TwinConn(SimConnection):
+        def _commit_serialized_message(self, raw_msg, block=True, callback=None):
+            tp = raw_msg[0]
+            if tp in (MessageType.INIT_NEW_APP.value, MessageType.OPEN_EPR_SOCKET.value):
+                N.node.run_raw_now(raw_msg)
+            return super()._commit_serialized_message(raw_msg, block, callback)
+
+    hwc = NVHardwareConfig(budget) if nvcfg else GenericHardwareConfig(budget)
+    conn = TwinConn("app", V.node, max_qubits=budget, hardware_config=hwc)
+    drv = SdkDriver(conn)
+    # with an NV hardware config the SDK relocates qubits at build time: only meaningful in straight-line code
+    gen = HostGen(ch, max_qubits=budget - (2 if nvcfg else 1), avoid={"regfuture-in-body", "rewrite-after-read"},
+                  allow=SDK_ALLOW - ({"loop", "if", "empty-body"} if nvcfg else set()), max_depth=1 if calm else 2, max_top=4 if calm else 9, xflush=(0, 1) if calm else (1, 4))
+    prog = gen.program()
+    sample = {"form": "sdk-emitted", "nv_config": nvcfg, "budget": budget, "program": prog}
+    tags = "|sdk-emitted" + ("|nv-config" if nvcfg else "")
+    n_sub = 0
+    crossing = False
+    try:
+        drv.qubits["qe"] = Qubit(conn)      # the electron: virtual id 0 stays allocated (see ASSUMPTIONS)
+        prog = prog[:-1] + [("measure", "qe", ("new", "fe"), False), ("flush",)]
+        for st in prog:
+            drv.exec(st)
+            if st[0] != "flush":
+                continue
+            while conn.outbox:
+                raw = conn.outbox.pop(0)
+                if raw[0] != MessageType.SUBROUTINE.value:
+                    continue
+                n_sub += 1
+                try:
+                    V.run_bytes(raw)
+                except StepCap:
+                    raise RuntimeError("generator produced a non-terminating program")
+                except Violation:
+                    raise
+                except Exception as e:  # noqa: BLE001
+                    raise Discard("the SDK-emitted vanilla subroutine faults on the vanilla executor (C09's business): "
+                                  + type(e).__name__)
+                sub = deserialize(raw[1:], flavour=vf)
+                vprog_len = len(sub.instructions)
+                tsub = NVSubroutineTranspiler(sub).transpile()
+                if len(tsub.instructions) != vprog_len and any(i.mnemonic in ("beq", "bne", "blt", "bge", "bez", "bnz", "jmp")
+                                                                for i in tsub.instructions):
+                    crossing = True
+                try:
+                    N.run_bytes(bytes(SubroutineMessage(tsub)))
+                except StepCap:
+                    raise Violation("twin", f"nv-side-does-not-terminate{tags}", {"transpiled": str(tsub)[:3000], **sample})
+                except Violation:
+                    raise
+                except Exception as e:  # noqa: BLE001
+                    if "address 0 was not allocated" in str(e):
+                        raise Discard("electron not allocated (C09's recorded finding)")
+                    raise Violation("twin", f"nv-side-faults|{type(e).__name__}{tags}",
+                                    {"error": str(e)[:300], "transpiled": str(tsub)[:3000], **sample})
+                _compare(V, N, tags, {"subroutine": n_sub, "transpiled": str(tsub)[:2500], **sample})
+    except (Violation, Discard):
+        raise
+    except Exception as e:  # noqa: BLE001
+        import traceback as tb
+        fr = tb.extract_tb(e.__traceback__)[-1]
+        if fr.filename.startswith("/verif"):
+            raise
+        raise Violation("twin", f"sdk-or-vanilla-side-exception|{type(e).__name__}|{fr.name}{tags}", {"error": str(e)[:300], **sample})
+    if crossing:
+        bump(probes, "branch-crosses-expansion")
+    h = hashlib.blake2b(repr((prog, nvcfg, budget)).encode(), digest_size=10).hexdigest()
+    bump(faults, "collapse-draws-shared-by-twins", V.uni.nmeas)
+    return {"digest": h + str(V.uni.nmeas), "fingerprint": h, "nontrivial": bool(crossing), "events": n_sub, "sim_ns": 0,
+            "faults": faults, "probes": probes, "calm": calm,
+            "sample": {"form": "sdk-emitted", "nv_config": nvcfg, "budget": budget, "program": prog[:14]}}
+
+
+def _compare(V: "Side", N: "Side", tags: str, sample: Dict[str, Any]) -> None:
+    errs = V.uni.errors + V.qm.errors + N.uni.errors + N.qm.errors
+    if errs:
+        raise Violation("twin", f"memory|{errs[0].split(' ')[0]}{tags}", {"errors": errs[:3], **sample})
+    for (a, b) in N.node.env.crot_virtual:
+        if a != 0 or b == 0:
+            raise Violation("twin", f"crot-not-electron-controlled{tags}", {"control": a, "target": b, **sample})
+    rv = {k: v for k, v in V.node.regs(0).items() if k[0] != "Q" and k != ("C", 15)}
+    rn = {k: v for k, v in N.node.regs(0).items() if k[0] != "Q" and k != ("C", 15)}
+    if rv != rn:
+        diff = {str(k): (rv.get(k), rn.get(k)) for k in set(rv) | set(rn) if rv.get(k) != rn.get(k)}
+        raise Violation("twin", f"classical-registers-differ{tags}", {"diff(vanilla,nv)": diff, **sample})
+    if V.node.arrays(0) != N.node.arrays(0):
+        raise Violation("twin", f"arrays-differ{tags}", {"vanilla": V.node.arrays(0), "nv": N.node.arrays(0), **sample})
+    if V.node.allocated(0) != N.node.allocated(0):
+        raise Violation("twin", f"allocated-qubits-differ{tags}", {"vanilla": V.node.allocated(0), "nv": N.node.allocated(0), **sample})
+    ids = V.node.allocated(0)
+    if not ids:
+        return
+    sv = V.uni.statevector([(0, V.node.unit_module(0)[i]) for i in ids])
+    sn = N.uni.statevector([(0, N.node.unit_module(0)[i]) for i in ids])
+    if sv is None or sn is None:
+        raise Violation("twin", f"state-not-pure{tags}", dict(sample))
+    f = float(abs(np.vdot(sv, sn)) ** 2)
+    if f < 1 - 1e-9:
+        raise Violation("twin", f"quantum-state-differs{tags}", {"fidelity": f, **sample})
+
+
 def run(ch: Choices, opts: Dict[str, Any]) -> Dict[str, Any]:
     reset_globals()
     avoid = set(opts.get("avoid", ()))
     calm = ch.flag(1, 10, "calm")
+    if ch.flag(1, 3, "sdk-emitted"):
+        return run_sdk(ch, opts, calm)
     n = 2 if calm else 2 + ch.draw(2, "nq")
     gen = ProgGen(ch, n, avoid | ({"q-reg-by-load"} if calm else set()))
     prog = gen.program()
@@ -336,3 +472,5 @@ def run(ch: Choices, opts: Dict[str, Any]) -> Dict[str, Any]:
 
 def cleanup() -> None:
     reset_globals()
+    from sim.stubs.connection import SimNetworkInfo
+    SimNetworkInfo.reset()
